@@ -15,6 +15,7 @@ use crate::variant::*;
 use super::in_inclusive_range16;
 use super::in_range16;
 
+#[cfg_attr(feature = "hsivonen_encoding_rs_verif", derive(Debug, Clone, PartialEq, Eq, Hash))]
 pub struct EucKrDecoder {
     lead: Option<u8>,
 }
@@ -287,6 +288,7 @@ fn ksx1001_encode_hanja(bmp: u16) -> Option<(u8, u8)> {
     }
 }
 
+#[cfg_attr(feature = "hsivonen_encoding_rs_verif", derive(Debug, Clone, PartialEq, Eq, Hash))]
 pub struct EucKrEncoder;
 
 impl EucKrEncoder {
